@@ -104,6 +104,23 @@ let register (reg : string -> (string list -> string) -> unit) =
       let (pg', off') = cur_adv k (nat_of_int (int_of_string pp)) (nat_of_int (int_of_string pg)) (nat_of_int (int_of_string off)) k in
       string_of_int (int_of_nat pg') ^ " " ^ string_of_int (int_of_nat off')
     | _ -> failwith "args");
+  (* walscript <limit> <[k1,w1,k2,w2,..] committed mapping> op... : the overwrite mapping after the commit of a
+     transaction; op = a<id> (Alloc) | s<id> (page written) | f<id> (Page.Flush) | F (Tx.Flush) | c (CheckpointWAL);
+     answer: the sorted original page ids that have an overwrite page afterwards *)
+  reg "walscript" (fun a -> match a with
+    | limit :: mp :: ops ->
+      let rec pairs l = match l with k :: w :: r -> (k, w) :: pairs r | _ -> [] in
+      let s0 = { f_disk = (fun _ -> Z0); f_wal = pairs (list_of_tok mp) } in
+      let fresh = List.init 4000 (fun i -> z_of_int (1000000000 + i)) in
+      let idof o = z_of_string (String.sub o 1 (String.length o - 1)) in
+      let ops' = List.map (fun o -> match o.[0] with
+        | 'a' -> OAlloc (idof o) | 's' -> OSet (idof o, Z0) | 'f' -> OFlush (idof o)
+        | 'F' -> OFlushAll | 'c' -> OCheckpoint | _ -> failwith "op") ops in
+      let t = tx_run s0 (tx_begin fresh) ops' in
+      let s1 = tx_commit s0 t (z_of_string limit) in
+      let keys = List.sort compare (List.map (fun (k, _) -> int_of_z k) s1.f_wal) in
+      "[" ^ String.concat "," (List.map string_of_int keys) ^ "]"
+    | _ -> failwith "args");
   reg "pagescript" pagescript;
   (* lockscript s p r op... : per op the new state, or B when the op would block (state unchanged) *)
   reg "lockscript" (fun a -> match a with
